@@ -151,7 +151,8 @@ def ev_pool(case):
 
     # serial reference
     with lib("serial"):
-        ref = [make(k, 10 + i, display=display) for i, k in enumerate(kinds)]
+        sd = (lambda i: 10) if case.get("same_seed") else (lambda i: 10 + i)
+        ref = [make(k, sd(i), display=display) for i, k in enumerate(kinds)]
         with contextlib.redirect_stdout(io.StringIO()):
             for n_ in n:
                 for c in ref:
@@ -165,7 +166,7 @@ def ev_pool(case):
             try:
                 with contextlib.redirect_stdout(io.StringIO()):
                     with lib("ChainPool"):
-                        pool = PAR.ChainPool([make(k, 10 + i, display=display) for i, k in enumerate(kinds)])
+                        pool = PAR.ChainPool([make(k, sd(i), display=display) for i, k in enumerate(kinds)])
                         for n_ in n:
                             pool.advance(n_)
                         out = pool.chains
@@ -477,6 +478,9 @@ def run(ck):
             kinds = [SAMPLERS[(i + ck.seed) % 5] for i in range(size)] if size > 1 else ["GibbsChain"]
             pc.append(dict(kinds=kinds, n=[7, 0, 12] if size < 4 else [5], display=display))
     pc.append(dict(kinds=["GibbsChain", "GibbsChain", "HamiltonianChain"], n=[130], display=False))
+    # chains that happen to carry identical generator states (same seed) are still advanced exactly as they are one after another
+    pc.append(dict(kinds=["GibbsChain", "GibbsChain", "GibbsChain"], n=[9, 4], display=False, same_seed=True))
+    pc.append(dict(kinds=["HamiltonianChain", "HamiltonianChain"], n=[6], display=True, same_seed=True))
     ck.run_cases("pool", pc, chunk=1)
     ck.run_cases("realpool", [dict(kinds=["GibbsChain", "PcaChain", "HamiltonianChain"], n=9, display=False),
                               dict(kinds=["EnsembleSampler", "GibbsChain"], n=4, display=True)], parallel=False)
